@@ -6,6 +6,7 @@ package policy
 import (
 	verif "github.com/gittuf/gittuf/internal/zzverif"
 	"github.com/gittuf/gittuf/pkg/githash"
+	"github.com/gittuf/gittuf/pkg/gitstore"
 	"github.com/gittuf/gittuf/pkg/rsl"
 )
 
@@ -105,5 +106,102 @@ func HarnessC19Mergeable() {
 	default:
 		verif.Reach("predicted-no-signature-needed")
 		verif.Assert(verr == nil, "no-signature-needed:merge-verifies-whoever-records-it")
+	}
+}
+
+// zz19Tree: a tree with files a and b.
+func zz19Tree(w *zzWorld, a, b string) githash.Hash {
+	return w.S.RawTree([]gitstore.TreeEntry{
+		{Path: "a", ID: w.S.RawBlob([]byte(a)), Kind: gitstore.KindBlob},
+		{Path: "b", ID: w.S.RawBlob([]byte(b)), Kind: gitstore.KindBlob},
+	})
+}
+
+// HarnessC19MergeCommit: the branch has moved on since the feature branch was
+// cut, so the merge is a real merge commit carrying the predicted (three-way)
+// tree.  main changes file a, the feature branch changes file b; optionally a
+// file rule protects a (trusting key1, who made main's change).
+func HarnessC19MergeCommit() {
+	w := zzNewWorld()
+	threshold := verif.Concrete(verif.IntRange("threshold", 1, 2))
+	spec := zzBasePolicy([]int{0, 1, 2}, nil)
+	spec.rules[0].threshold = threshold
+	fileRule := verif.ConcreteBool(verif.Bool("filerule"))
+	if fileRule {
+		spec.rules = append(spec.rules, zzRuleSpec{name: "protect-a", pattern: "file:a", keys: []int{1}, threshold: 1})
+	}
+	zzMust(w.zzStageAndApply(spec, w.zzBuildState(spec, []int{0}, []int{0}), 0))
+
+	push := func(commit githash.Hash) {
+		w.S.SetRef(zzMain, commit)
+		w.tips[zzMain] = commit
+		w.S.Signer = 0
+		zzMust(rsl.NewReferenceEntry(zzMain, commit).Commit(w.S, true))
+	}
+	// base state B0 and main's own next change M1 (file a), both by key1 and fully approved
+	t0 := zz19Tree(w, "1", "1")
+	zzMust(w.zzAuthorizeConcrete([3]string{zzMain, githash.ZeroHash.String(), t0.String()}, []int{1, 2}))
+	b0 := w.S.RawCommit("", t0, nil, "base", 1)
+	push(b0)
+	t1 := zz19Tree(w, "2", "1")
+	zzMust(w.zzAuthorizeConcrete([3]string{zzMain, b0.String(), t1.String()}, []int{1, 2}))
+	m1 := w.S.RawCommit("", t1, []githash.Hash{b0}, "main moves on", 1)
+	push(m1)
+
+	// the feature branch, cut at B0, changes file b
+	tf := zz19Tree(w, "1", "2")
+	f1 := w.S.RawCommit(zzFeature, tf, []githash.Hash{b0}, "feature work", zzSigner("f1"))
+	w.tips[zzFeature] = f1
+	w.S.Signer = 1
+	zzMust(rsl.NewReferenceEntry(zzFeature, f1).Commit(w.S, true))
+
+	merged := zz19Tree(w, "2", "2")
+	var approved []bool
+	if verif.ConcreteBool(verif.Bool("with.approval")) {
+		a := w.zzAuthorize("approval", [3]string{zzMain, m1.String(), merged.String()}, [3]string{zzMain, m1.String(), merged.String()})
+		approved = a.signed
+	} else {
+		approved = []bool{false, false, false, false}
+	}
+
+	needSig, perr := NewPolicyVerifier(w.S).VerifyMergeable(w.ctx, zzMain, zzFeature)
+
+	// record the merge commit (carrying the predicted tree) by a candidate who
+	// signs both the commit and the log entry
+	candidate := zzSigner("candidate")
+	mm := w.S.RawCommit("", merged, []githash.Hash{m1, f1}, "merge feature", candidate)
+	w.S.SetRef(zzMain, mm)
+	w.tips[zzMain] = mm
+	w.S.Signer = candidate
+	zzMust(rsl.NewReferenceEntry(zzMain, mm).Commit(w.S, true))
+	_, verr := zzVerifyFull(w, zzMain)
+	if verr != nil {
+		verif.Observe("verification-error", verr.Error())
+	}
+
+	fresh := false
+	for k := 0; k < 3; k++ {
+		fresh = verif.Or(fresh, verif.And(verif.And(candidate >= 0, candidate == k), !approved[k]))
+	}
+	napproved := verif.B2I(approved[0]) + verif.B2I(approved[1]) + verif.B2I(approved[2])
+
+	// Known finding C19-K3: with file rules, verification also holds the merge
+	// commit itself to the rules of every path in which it differs from one
+	// of its parents (here: a, changed on main), whoever made that change;
+	// the predictor only looks at the feature branch's commits.
+	k3 := verif.And(fileRule, verif.And(perr == nil, verif.And(verr != nil, !verif.And(candidate >= 0, candidate == 1))))
+	verif.Witness("C19-K3", k3)
+	switch {
+	case perr != nil:
+		verif.Reach("predicted-not-possible")
+		k1 := verif.And(threshold == 1, verif.And(napproved == 0, verif.And(fresh, verr == nil)))
+		verif.Witness("C19-K1", k1)
+		verif.Assert(verif.Or(verr != nil, k1), "not-possible:merge-verifies-for-no-recorder")
+	case needSig:
+		verif.Reach("predicted-signature-needed")
+		verif.Assert(verif.Or((verr == nil) == fresh, k3), "signature-needed:verifies-iff-recorder-is-a-fresh-authorised-principal")
+	default:
+		verif.Reach("predicted-no-signature-needed")
+		verif.Assert(verif.Or(verr == nil, k3), "no-signature-needed:merge-verifies-whoever-records-it")
 	}
 }
